@@ -156,6 +156,10 @@ def _instance(emit, name, rng, base, first):
                               np.all(Ls >= L_ref * (1 - SLACK["sparse_power_below"]) - 1e-12 * scale))
                 else:
                     ok = bool(np.all(np.abs(Ls - L_ref) <= 1e-9 * np.abs(L_ref) + 1e-13 * scale))
+            if is_group and not ok and name == "LogisticGroup" and Ls.shape == (p,) and c is not None:
+                # p == n_groups (singleton groups): the inherited coordinate-wise accessor is still judged as such
+                Lf = c @ (X ** 2)
+                ok = bool(np.all(np.abs(Ls - Lf) <= 1e-9 * np.abs(Lf) + 1e-13 * (np.max(np.abs(Lf)) + 1e-300)))
             _emit(emit, base + "/sparse", name + ".get_lipschitz_sparse", ok, name,
                   "sparse-lipschitz-differs-from-exact-curvature", dict(got=Ls, ref=L_ref, units=n_units), None, nontriv)
         except Exception as e:
